@@ -17,7 +17,7 @@ from scipy.sparse.linalg import ArpackNoConvergence, eigsh
 import felupe as fem
 
 from .. import gen, refmodel, world
-from ..kernel import Discard, InjectedFault, SimSolverError, Streams, Violation, adigest, close_exact_twin
+from ..kernel import Discard, InjectedFault, SimSolverError, Streams, Violation, adigest, close_exact_twin, pick
 
 PROP = "C18"
 
@@ -199,10 +199,10 @@ def check_pairs(doc, log, rec, vals, vecs, K11, M11, site):
 def run(doc, log):
     doc0 = doc
     w = build(doc)
-    if doc["seed"] % 3 == 0 and w.boundaries:
+    if pick(doc["seed"], "empty-dict", 3) == 0 and w.boundaries:
         # the job is created with the caller's (still empty) dictionary, which is filled afterwards
         filled = dict(w.boundaries)
-        shared = fem.BoundaryDict() if doc["seed"] % 2 else {}
+        shared = fem.BoundaryDict() if pick(doc["seed"], "dict-kind", 2) else {}
         job = fem.FreeVibration(w.items, shared)
         shared.update(filled)
         w.boundaries = shared
@@ -291,6 +291,11 @@ def run(doc, log):
                 cu = np.linalg.cond(Muu) if Muu.size else 1.0
                 mass_u_singular = bool(not np.isfinite(cu) or cu > 1e10)
             cls = "singular-stiffness" if k_singular else ("singular-mass" if mass_u_singular else "regular-stiffness")
+            if cls != "regular-stiffness":
+                # the two open known findings: what shift-invert ARPACK returns for a singular operator is
+                # not even reproducible run to run with the same start vector (seen: 1 of 4 fresh
+                # interpreters differs); the determinism self-check compares only the event digests then
+                log.count("numerics:singular-operator")
             check_pairs(doc, log, rec, vals, vecs, K11, M11, f"FreeVibration.evaluate[{cls}]")
             lam_char = float(np.abs(K11).max()) / max(float(np.abs(M11).max()), 1e-300)
             lam_scale = None
